@@ -3,6 +3,18 @@
 import json, os
 V = '/verif'
 CHECKS = {
+ 'C06': dict(engine='M', technique='symbolic execution of the real StdRequestDeserializer (blocking + async state machine), request_body_encoding, encoding plumbing and read_body MIR over symbolic chunk histories, size limits and parsed Content-Types; z3 decides acceptance == exactly one complete valid document',
+             text='On every path of the real MIR (const-generic limit N symbolic, <= 3 stream items with symbolic lengths incl. empty chunks and stream errors, Content-Type absent/unparsable/parsed with suffix and parameters, both encoding registration orders) the solver decides: accepted <=> Content-Type essence equals a registered encoding and no stream error and total <= N and the buffer is the in-order concatenation and the document is valid and nothing but whitespace follows; refusals are INVALID_ARGUMENT or the stream error; no panic. Optional and binary body deserializers likewise. Counterexamples are re-materialised as concrete bodies and replayed on the real build.',
+             note='Trusted: mirsym; boundary models of serde_json/serde_smile (document cursor: deserialize consumes one document, end() iff only whitespace follows), erased_serde::erase transparent, mediatype parse results symbolic, futures always Ready. Outside: document well-formedness itself; > 3 stream items.',
+             ref='§5 C06'),
+ 'C11': dict(engine='M', technique='symbolic execution of the real ConjureRuntime::{response_body_encoding, request_body_encoding} MIR with all closures and mime_* helpers over symbolic parsed media ranges; z3 compares each path outcome with the statement written as z3 terms',
+             text='For one Accept value with <= 2 symbolic media ranges (type, subtype, +suffix, parameter, q text of <= 5 symbolic bytes, unparsable entries) and both registration orders of JSON/Smile, every path of the real selection code (stable sort_by, max_by, the 12 closures, accepts/mime_specificity/mime_quality) is compared by the solver with the statement (permitted, highest quality, first listed, first registered; silent where equally specific ranges mix q=0 and q>0). mime_quality_inner: all ASCII q strings <= 6 bytes, no panic, RFC-valid qvalues exact. Request side: essence equality incl. suffix. Counterexamples replayed on the real runtime.',
+             note='Trusted: mirsym; models of mediatype (parsed structures, Name equality, essence, get_param), http header access, std iterator/sort contracts. Outside: text->range parsing; > 2 ranges (thorough: 3).',
+             ref='§5 C11'),
+ 'C18': dict(engine='M', technique='symbolic execution of the real client decode_* functions and read_body/async_read_body (coroutine state machines executed from MIR) over symbolic chunk histories; z3 compares with a sequential oracle and blocking vs async twins',
+             text='read_body and async_read_body are executed from MIR on the same symbolic history (<= 3 items, symbolic lengths incl. empty chunks, stream errors, optional limit over 64 bits) and compared by the solver with the item-by-item oracle (which error, every output byte); the decode_* entry points (value / default / unit / binary / optional binary, blocking and async) return Ok exactly for 204 where admitted or Content-Type == application/json with no stream error, body == concatenation, one valid document and only whitespace after it. Counterexamples are replayed natively (both flavours).',
+             note='Trusted: mirsym; boundary model of serde_json (document cursor) under conjure-serde client_from_slice + end executed from MIR; futures always Ready. Outside: JSON well-formedness; Pending interleavings; > 3 items.',
+             ref='§5 C18'),
  'C07': dict(engine='M', technique='symbolic execution of the real UriBuilder MIR over symbolic parameter bytes with z3; percent-encode sets const-evaluated from the MIR of the AsciiSet chains; length-only abstraction for the build() unwrap',
              text='For the template /a/{v1}/b/{v2}?k={q1}&j={q2} and all valid-UTF-8 values up to the bound (every byte value) the solver decides, on the real MIR of new/push_literal/push_*_parameter_raw/push_escaped/build, that every value goes through percent-encoding exactly once with a set that leaves only harmless bytes raw for its position, that the buffer is exactly literals+separators+encoded values, and that build() cannot panic on content; a second query over lengths only finds the >65534-byte panic (known finding). Counterexamples are replayed on the real build with a server-side decode oracle.',
              note='Trusted: mirsym, models of percent_encoding (bytewise contract), http::Uri byte tables (quoted from http 1.x), bytes. Outside: longer values (bytewise map), macro/generator-side key and literal encoding.',
